@@ -129,7 +129,12 @@ def correspondence(ctx):
         "commands, artifact names, by-products, environment, readme, step names, rule patterns, constraints: sign + Dump + both loaders must give back the "
         "signed bytes and a verifying signature (invisible-roundtrip), two metadata differing by one U+FEFF must still differ after Dump + Load "
         "(invisible-pair), the same through the DSSE wrapper (invisible-dsse), and a file that starts with a byte order mark is refused by both loaders "
-        "as the unchanged repository does (invisible-bom-file, pinned behaviour). value level: random generic values "
+        "as the unchanged repository does (invisible-bom-file, pinned behaviour); two or three DSSE envelopes alive at once (class two-envelopes: links "
+        "and layouts, payloads with and without control characters so that both encoder paths of SetPayload are taken, sizes from a few hundred bytes to "
+        "several KB) under 10-16 interleaved operations drawn from SetPayload(i), Sign(i,key), VerifySignature(i), Dump/Load(i) (continuing with the loaded "
+        "object) and GetSignableRepresentation of the Metablock twin: after EVERY operation, for EVERY envelope, the dumped payload must be byte for byte "
+        "the hand-written reference encoding of the metadata set on that envelope, decode (encoding/json, generic) to exactly that metadata, GetPayload "
+        "must be that metadata, and every stored signature must verify with Go's crypto directly over the PAE of those bytes. value level: random generic values "
         "through cjson.EncodeCanonical and through SetPayload of a link carrying them, and JSON texts (half of them damaged) through "
         "json.Valid+Decoder(UseNumber), against the extracted model. non-trivial = every case (no case is a constant input); distinct = distinct input JSON / input line")
     _value_level(ctx, binp, 20000 if ctx.tier == 'quick' else 600000, corr)
